@@ -260,13 +260,13 @@ contract(
     locals={"events": "List[Event]"},
     requires=[],
     ensures=["len(result) == len(rows) and fresh(result)",
-             "all(fresh(result[j]) and decodes(result[j], rows[j]) for j in range(len(result)))"],
+             "all(fresh(result[j]) and fresh(result[j].data) and decodes(result[j], rows[j]) for j in range(len(result)))"],
     modifies=["alloc"], raises=[],
     writes_fresh=["Event.id", "Event.timestamp", "Event.duration", "Event.data", "Event.id!has", "Event.timestamp!has",
                   "Event.duration!has", "Event.data!has", "Dict.map:JV", "List.len", "List.items"],
     loops={0: dict(index="k", invariant=[
         "len(events) == k",
-        "all(fresh(events[j]) and allocated(events[j]) and allocated(events[j].data) and decodes(events[j], rows[j]) for j in range(k))",
+        "all(fresh(events[j]) and allocated(events[j]) and allocated(events[j].data) and fresh(events[j].data) and decodes(events[j], rows[j]) for j in range(k))",
     ])},
 )
 
@@ -277,7 +277,7 @@ contract(
     params={"self": "SqliteStorage", "bucket_id": "str", "event_id": "int"}, returns="Optional[Event]",
     requires=["lazy_inv(self)"],
     ensures=["(result is not None) == in_bucket(self, event_id, bucket_id)",
-             "result is None or (fresh(result) and decodes(result, (event_id, ev_start(self, event_id), ev_end(self, event_id), ev_data(self, event_id))))",
+             "result is None or (fresh(result) and fresh(result.data) and decodes(result, (event_id, ev_start(self, event_id), ev_end(self, event_id), ev_data(self, event_id))))",
              ] + PURE_READ,
     modifies=DBMOD, writes_fresh=CUR_FRESH + EV_FRESH, raises=[],
 )
@@ -320,6 +320,8 @@ contract(
     ensures=[
         "limit != 0 or len(result) == 0",
         "limit <= 0 or len(result) <= limit",
+        # what is handed out is the caller's: fresh objects with fresh data dicts (the store keeps no reference)
+        "fresh(result) and all(fresh(result[j]) and fresh(result[j].data) for j in range(len(result)))",
         # every returned event is a stored event of the bucket inside the window, decoded; newest first (timestamp descending)
         "all(result[j].id is not None and in_window(self, result[j].id, bucket_id, starttime, endtime)"
         "    and decodes(result[j], (result[j].id, ev_start(self, result[j].id), ev_end(self, result[j].id), ev_data(self, result[j].id)))"
@@ -422,4 +424,52 @@ contract(
         "all(not bk_live(self, r) or not any(__seq[j][0] == bk_id(self, r) for j in range(k))"
         "    or (bk_id(self, r) in buckets and describes(buckets[bk_id(self, r)], self, r)) for r in bucket_rowids(self))",
     ])},
+)
+
+
+# -- C07: one step of the standard heartbeat loop, as the property states it, against the sqlite store -------------------------
+# (the loop itself lives in aw-server; the property spells it out: read the newest event, try to merge the heartbeat into it,
+#  then either replace the newest event with the merged one or insert the heartbeat.)  The step is a lemma over the contracts
+# of get_events(limit=1), heartbeat_merge, replace_last and insert_one: callers see those contracts, not the bodies.
+def heartbeat_step(storage, bucket_id, heartbeat, pulsetime):
+    from aw_transform.heartbeats import heartbeat_merge
+    last = storage.get_events(bucket_id, 1)
+    if len(last) > 0:
+        merged = heartbeat_merge(last[0], heartbeat, pulsetime)
+        if merged is not None:
+            storage.replace_last(bucket_id, merged)
+            return merged
+    storage.insert_one(bucket_id, heartbeat)
+    return heartbeat
+
+
+@spec
+def in_range_1970(self, bucket_id):
+    """every event of the bucket lies inside the window an unbounded read uses (end >= 1970, start <= MAX_TIMESTAMP)"""
+    return all(not in_bucket(self, i, bucket_id) or (ev_end(self, i) >= 0 and ev_start(self, i) <= 2 ** 63 - 1) for i in event_ids(self))
+
+
+contract(
+    "contracts.sqlite.heartbeat_step",
+    params={"storage": "SqliteStorage", "bucket_id": "str", "heartbeat": "Event", "pulsetime": "float"}, returns="Event",
+    requires=["lazy_inv(storage)", "in_range_1970(storage, bucket_id)", "heartbeat.id is None"],
+    ghost_vars={"n": ("int", "0")},
+    ghost_code=[dict(after="merged = heartbeat_merge(", code="n = last[0].id")],
+    ensures=[
+        # no earlier event is ever altered or lost: every row other than the newest event of the addressed bucket is as before
+        "all(i == n or i > old(ev_max(storage)) or ev_row(storage, i) == old(ev_row(storage, i)) for i in event_ids(storage))",
+        "all(bk_row(storage, r) == old(bk_row(storage, r)) for r in bucket_rowids(storage))", "lazy_inv(storage)",
+        # n is the newest event of the bucket (the one a limit-1 read returns), or 0 when the bucket is empty / nothing merged
+        "n == 0 or old(newest(storage, n, bucket_id))",
+        # merged: the newest row is rewritten with the merge result, no row is added
+        "result is heartbeat or (n != 0 and ev_max(storage) == old(ev_max(storage)) and in_bucket(storage, n, bucket_id) and holds(storage, n, result))",
+        # not merged: the heartbeat becomes a new row (id never used before) of the bucket, and the newest row is untouched
+        "result is not heartbeat or (ev_max(storage) == old(ev_max(storage)) + 1 and in_bucket(storage, ev_max(storage), bucket_id)"
+        "    and holds(storage, ev_max(storage), heartbeat) and (n == 0 or ev_row(storage, n) == old(ev_row(storage, n))))",
+        # the bucket was empty -> inserted
+        "any(old(in_bucket(storage, i, bucket_id)) for i in event_ids(storage)) or result is heartbeat",
+    ],
+    modifies=["storage.last_commit", "storage.num_uncommitted_statements", "storage.conn.*", "alloc", "heartbeat.id"],
+    writes_fresh=CUR_FRESH + EV_FRESH, raises=["IntegrityError"],
+    exc_ensures={"IntegrityError": ["not old(bucket_exists(storage, bucket_id))"]},
 )
